@@ -80,3 +80,22 @@ func verifLemmaRtpHeaderRoundTrip(h RtpHeader, buf []byte) (RtpHeader, error) {
 //@   props C12
 //@   ensures [C12.stale] seq - l.doneSeq != 32768 ==> result == (l.doneSeqFlag && int16(seq - l.doneSeq) <= 0)
 //@ end
+
+// Key-frame gate for RTSP subscribers (C02: "the first video frame it receives is a key frame"): a
+// fragmentation unit counts as a boundary only on its first fragment (start bit).
+//@ func IsAvcBoundary
+//@   props C02 C13
+//@   requires pkt.Header.Padding == 0 && pkt.Header.payloadOffset >= 12 && int(pkt.Header.payloadOffset) + 4 <= len(pkt.Raw)
+//@   let b = pkt.Raw[int(pkt.Header.payloadOffset):]
+//@   ensures [C02.boundary.fua]    b[0]&0x1F == 28 && result ==> b[1]&0x80 != 0 && (b[1]&0x1F == 5 || b[1]&0x1F == 7 || b[1]&0x1F == 8)
+//@   ensures [C02.boundary.single] (b[0]&0x1F == 5 || b[0]&0x1F == 7 || b[0]&0x1F == 8) ==> result
+//@   ensures [C02.boundary.other]  b[0]&0x1F >= 1 && b[0]&0x1F <= 4 ==> !result
+//@ end
+
+//@ func IsHevcBoundary
+//@   props C02 C13
+//@   requires pkt.Header.Padding == 0 && pkt.Header.payloadOffset >= 12 && int(pkt.Header.payloadOffset) + 4 <= len(pkt.Raw)
+//@   let b = pkt.Raw[int(pkt.Header.payloadOffset):]
+//@   ensures [C02.hboundary.fu]    b[0]>>1&0x3F == 49 && result ==> b[2]&0x80 != 0
+//@   ensures [C02.hboundary.other] b[0]>>1&0x3F <= 9 ==> !result
+//@ end
